@@ -110,6 +110,15 @@ def check(fb, ctx):
             if any(rx.search(p) for p in paths) and all(any(r2.search(p) for r2, _ in RECUR_OK) or "{closure" in p for p in paths):
                 reason = why
                 break
+        if reason is None and all(fb.bodies[k]["path"] not in getattr(fb, "_known_paths", {fb.bodies[k]["path"]}) for k in comp):
+            # a cycle made only of NEW functions (not in tables/known_functions.json) whose outside callers are all functions with an
+            # accepted recursion argument: the recursive body of such a function was moved into a helper (`Expression::print` ->
+            # `print_ops`); the argument is about the data that is walked, which is the same
+            outside = {fb.bodies[c_]["path"] for c_ in fb.bodies if c_ not in comp and fb.bodies[c_].get("blocks") and any(x.rkey in comp for x in fb.calls(fb.bodies[c_]) if not x.indirect and getattr(x, "rkey", None))}
+            for rx, why in RECUR_OK:
+                if outside and all(rx.search(p_) for p_ in outside):
+                    reason = why + " [recursion moved into a new helper of that function]"
+                    break
         if reason:
             ctx.ok("RECUR", rep, where, reason)
         else:
